@@ -346,6 +346,18 @@ BUILD_GHOSTS = ['g:eff', 'g:fs_kind', 'g:fs_epoch', 'g:ncalls', 'g:rm_attempts',
 # (_build's contract: see the end of this module, where it is verified)
 
 
+def local_sym(eng, st, name):
+    """the value of a local of the function under verification that a guard needs; None if it is
+    not bound.  If the function has no local of that name at all (renamed by a refactoring) the
+    guard does not apply: the function's obligations become weak (decided by replay, 10.3)"""
+    v = root_env(st).get(name)
+    if isinstance(v, Sym):
+        return v
+    if name not in getattr(eng, 'cur_local_names', (name,)):
+        eng.renamed_locals.add(name)
+    return None
+
+
 def bv_mkdtemp_guard(eng, st, args):
     """C15: the temporary directory (first effect of a build) is made only after every check"""
     env = root_env(st)
@@ -374,7 +386,7 @@ def bv_mkdtemp_guard(eng, st, args):
             ('bookkeeping-knows-the-previous-created-dirs', ForAll([xs_], (
                 mr[xs_] == eng.hread(st, 'Cache._created_dirs', oc.t)[xs_])), ['C12', 'C04', 'C03']),
         ]
-    nc = env.get('new_cache')
+    nc = local_sym(eng, st, 'new_cache')
     # C06 ("names absent from the map have version None", "a version change invalidates"): the
     # cache of this build records exactly the versions it was given -- the JSON form of the
     # `versions` argument, nothing carried over from anywhere else, nothing left unsanitized
@@ -1489,8 +1501,8 @@ def rollback_remove_guard(eng, st, args):
 
 def rollback_rmdir_guard(eng, st, args):
     p = args[0]
-    return [('only-dirs-created-by-this-build', root_env(st)['dirs_to_remove'].t[p]
-             if isinstance(root_env(st).get('dirs_to_remove'), Sym) else z3.BoolVal(False),
+    dtr = local_sym(eng, st, 'dirs_to_remove')
+    return [('only-dirs-created-by-this-build', dtr.t[p] if dtr is not None else z3.BoolVal(False),
              ['C03', 'C02'])]
 
 
@@ -2182,7 +2194,7 @@ REBUILD.guards = {'remove': rebuild_remove_guard}
 
 
 def make_dirs_rmdir_guard(eng, st, args):
-    made = root_env(st).get('made_dirs')
+    made = local_sym(eng, st, 'made_dirs')
     return [('removes-only-directories-this-call-created',
              in_list(made.t, args[0]) if isinstance(made, Sym) else z3.BoolVal(False),
              ['C03', 'C10'])]
